@@ -31,7 +31,7 @@ theorem canAcquire_or (s : State) (me : Tid) :
     · right; exact ⟨x, rfl, hx⟩
 
 /-- **A live worker outside a task body is never stuck**, except waiting for the pool lock held by another thread. -/
-theorem worker_enabled {s : State} (hB : BaseInv s) (hT : TaskInv s) (hL : LockInv s)
+theorem worker_enabled {s : State} (htm : s.cfg.timeoutNone = false) (hB : BaseInv s) (hT : TaskInv s) (hL : LockInv s)
     {i : Nat} {w : Worker} (hw : s.workers[i]? = some w) (hd : w.pc ≠ .dead) (hb : w.pc ≠ .body) :
     (∃ op tmo s', envOp op = false ∧ workerStep s i w op tmo = some s') ∨
     (wWantsLock w.pc = true ∧ ∃ x, s.lockOwner = some x ∧ x ≠ .worker i) := by
@@ -50,7 +50,7 @@ theorem worker_enabled {s : State} (hB : BaseInv s) (hT : TaskInv s) (hL : LockI
   case dead => exact absurd hpc hd
   case body => exact absurd hpc hb
   case loopHead => left; exact ⟨.eventIsSet, false, by simp [envOp, workerStep, hpc]⟩
-  case get => left; exact ⟨.queueGet, true, by simp [envOp, workerStep, hpc]⟩
+  case get => left; exact ⟨.queueGet, true, by simp [envOp, workerStep, hpc, htm]⟩
   case sentDone =>
     left; refine ⟨.queueTaskDone, false, ?_⟩
     have : s.unfinished ≠ 0 := by omega
@@ -129,7 +129,7 @@ theorem owner_worker_enabled {s : State} (hL : LockInv s) {j : Nat} (ho : s.lock
 
 /-- **A client inside a critical section of the pool lock is never stuck**, except `clear()` blocked in `Queue.join`
     while items are unfinished. -/
-theorem holder_client_enabled {s : State} (hB : BaseInv s) (hT : TaskInv s) (hL : LockInv s)
+theorem holder_client_enabled {s : State} (htm : s.cfg.timeoutNone = false) (hB : BaseInv s) (hT : TaskInv s) (hL : LockInv s)
     {j : Nat} {c : Client} (hc : s.clients[j]? = some c) (hd : cDepth c.pc ≠ 0) :
     (∃ op tmo s', envOp op = false ∧ clientStep s j c op tmo = some s') ∨ (c.pc = .clrJoin ∧ s.unfinished ≠ 0) := by
   have hcl := hL.cl j c hc hd
@@ -144,13 +144,13 @@ theorem holder_client_enabled {s : State} (hB : BaseInv s) (hT : TaskInv s) (hL 
   all_goals simp only [cDepth] at hcl
   case stIsSet k => left; exact ⟨.eventIsSet, false, by simp [envOp, clientStep, hpc]⟩
   case stRel k => left; exact ⟨.lockRelease, false, by simp [envOp, clientStep, hpc, canRelease, hcl]⟩
-  case enqPut t => left; exact ⟨.queuePut, true, by simp [envOp, clientStep, hpc]⟩
+  case enqPut t => left; exact ⟨.queuePut, true, by simp [envOp, clientStep, hpc, htm]⟩
   case enqStAcq => left; exact ⟨.lockAcquire, false, by simp [envOp, clientStep, hpc, canAcquire, hcl]⟩
   case enqStIsSet => left; exact ⟨.eventIsSet, false, by simp [envOp, clientStep, hpc]⟩
   case enqStRel => left; exact ⟨.lockRelease, false, by simp [envOp, clientStep, hpc, canRelease, hcl]⟩
   case enqRel => left; exact ⟨.lockRelease, false, by simp [envOp, clientStep, hpc, canRelease, hcl]⟩
   case enqRelFail => left; exact ⟨.lockRelease, false, by simp [envOp, clientStep, hpc, canRelease, hcl]⟩
-  case stopPut n => left; exact ⟨.queuePut, true, by simp [envOp, clientStep, hpc]⟩
+  case stopPut n => left; exact ⟨.queuePut, true, by simp [envOp, clientStep, hpc, htm]⟩
   case stopRel cp =>
     left; refine ⟨.lockRelease, false, ?_⟩
     cases cp <;> simp [envOp, clientStep, hpc, canRelease, hcl]
@@ -208,7 +208,7 @@ def progressing (s : State) (a : Action) : Bool :=
         | none => false)
       else s.lockOwner == some (.client j))
 
-theorem owner_progress {s : State} (hB : BaseInv s) (hT : TaskInv s) (hC : CtlInv s)
+theorem owner_progress {s : State} (htm : s.cfg.timeoutNone = false) (hB : BaseInv s) (hT : TaskInv s) (hC : CtlInv s)
     {x : Tid} (ho : s.lockOwner = some x) (hx : x ≠ .client 0) :
     ∃ a s', progressing s a = true ∧ step? s a = some s' := by
   cases x with
@@ -218,7 +218,7 @@ theorem owner_progress {s : State} (hB : BaseInv s) (hT : TaskInv s) (hC : CtlIn
   | client j =>
     have hj : j ≠ 0 := by intro h; subst h; exact hx rfl
     obtain ⟨c, hc, hd⟩ := hC.lock.co j ho
-    rcases holder_client_enabled hB hT hC.lock hc hd with ⟨op, tmo, s', he, hst⟩ | ⟨hpc, _⟩
+    rcases holder_client_enabled htm hB hT hC.lock hc hd with ⟨op, tmo, s', he, hst⟩ | ⟨hpc, _⟩
     · exact ⟨⟨.client j, op, tmo⟩, s', by simp [progressing, he, hj, ho], by simp [step?, hc, hst]⟩
     · exact absurd (hC.only j c hc (by simp [hpc, ctlPc])) hj
 
@@ -230,7 +230,7 @@ theorem ctl_progress {s : State} {c : Client} (op : Op) (tmo : Bool) (hc : s.cli
 
 /-- While the controller waits for a live thread, that thread (or the owner of the lock it waits for) can move,
     unless it is executing a task body. -/
-theorem alive_progress {s : State} (hB : BaseInv s) (hT : TaskInv s) (hC : CtlInv s)
+theorem alive_progress {s : State} (htm : s.cfg.timeoutNone = false) (hB : BaseInv s) (hT : TaskInv s) (hC : CtlInv s)
     {c : Client} (hc : s.clients[0]? = some c) (hd0 : cDepth c.pc = 0) {w : Nat} (ha : workerAlive s w = true) :
     (∃ wr ∈ s.workers, wr.pc = .body) ∨ ∃ a s', progressing s a = true ∧ step? s a = some s' := by
   unfold workerAlive at ha
@@ -241,9 +241,9 @@ theorem alive_progress {s : State} (hB : BaseInv s) (hT : TaskInv s) (hC : CtlIn
     by_cases hb : wr.pc = .body
     · exact Or.inl ⟨wr, List.mem_of_getElem? hw, hb⟩
     · right
-      rcases worker_enabled hB hT hC.lock hw ha hb with ⟨op, tmo, s', he, hst⟩ | ⟨_, x, ho, hx⟩
+      rcases worker_enabled htm hB hT hC.lock hw ha hb with ⟨op, tmo, s', he, hst⟩ | ⟨_, x, ho, hx⟩
       · exact ⟨⟨.worker w, op, tmo⟩, s', by simp [progressing, he], by simp [step?, hw, hst]⟩
-      · refine owner_progress hB hT hC ho ?_
+      · refine owner_progress htm hB hT hC ho ?_
         intro hx0; subst hx0
         obtain ⟨c', hc', hd'⟩ := hC.lock.co 0 ho
         rw [hc] at hc'; cases hc'
@@ -268,13 +268,13 @@ theorem unfinished_zero_of_quiet {s : State} (hB : BaseInv s) (hC : CtlInv s) (h
     rw [hpc] at hpc'; cases hpc')
   rw [hU, he, hw1, hc1]; rfl
 
-theorem stop_no_stuck {s : State} (hB : BaseInv s) (hT : TaskInv s) (hC : CtlInv s) (hQ : QueueInv s)
+theorem stop_no_stuck {s : State} (htm : s.cfg.timeoutNone = false) (hB : BaseInv s) (hT : TaskInv s) (hC : CtlInv s) (hQ : QueueInv s)
     {c : Client} (hc : s.clients[0]? = some c) (hin : inStop s c.pc = true) :
     (∃ wr ∈ s.workers, wr.pc = .body) ∨ ∃ a s', progressing s a = true ∧ step? s a = some s' := by
   have hne := hC.stop.nonempty c hc
   have hcl := hC.lock.cl 0 c hc
   have hlk := canAcquire_or s (.client 0)
-  have hhold := fun hd => holder_client_enabled hB hT hC.lock hc hd
+  have hhold := fun hd => holder_client_enabled htm hB hT hC.lock hc hd
   cases hpc : c.pc
   all_goals simp only [hpc, inStop, copyOk] at hin hne
   all_goals (first | (simp at hin; done) | skip)
@@ -287,14 +287,14 @@ theorem stop_no_stuck {s : State} (hB : BaseInv s) (hT : TaskInv s) (hC : CtlInv
     right
     rcases hlk with hacq | ⟨x, ho, hx⟩
     · exact ctl_progress .lockAcquire false hc rfl (by simp [hpc, ctlSpin]) (by simp [clientStep, hpc, hacq])
-    · exact owner_progress hB hT hC ho hx
+    · exact owner_progress htm hB hT hC ho hx
   case clrAcq =>
     right
     rcases hlk with hacq | ⟨x, ho, hx⟩
     · exact ctl_progress .lockAcquire false hc rfl (by simp [hpc, ctlSpin]) (by simp [clientStep, hpc, hacq])
-    · exact owner_progress hB hT hC ho hx
+    · exact owner_progress htm hB hT hC ho hx
   case stopPut n =>
-    right; exact ctl_progress .queuePut true hc rfl (by simp [hpc, ctlSpin]) (by simp [clientStep, hpc])
+    right; exact ctl_progress .queuePut true hc rfl (by simp [hpc, ctlSpin]) (by simp [clientStep, hpc, htm])
   case stopRel cp =>
     right
     have := hcl (by simp [cDepth])
@@ -305,7 +305,7 @@ theorem stop_no_stuck {s : State} (hB : BaseInv s) (hT : TaskInv s) (hC : CtlInv
     | nil => simp at hne
     | cons w rest =>
       by_cases ha : workerAlive s w = true
-      · exact alive_progress hB hT hC hc (by simp [hpc, cDepth]) ha
+      · exact alive_progress htm hB hT hC hc (by simp [hpc, cDepth]) ha
       · right
         refine ctl_progress .threadIsAlive false hc rfl (by simp [hpc, ctlSpin, ha]) ?_
         cases rest <;> simp [clientStep, hpc, ha]
@@ -314,7 +314,7 @@ theorem stop_no_stuck {s : State} (hB : BaseInv s) (hT : TaskInv s) (hC : CtlInv
     | nil => simp at hne
     | cons w rest =>
       by_cases ha : workerAlive s w = true
-      · exact alive_progress hB hT hC hc (by simp [hpc, cDepth]) ha
+      · exact alive_progress htm hB hT hC hc (by simp [hpc, cDepth]) ha
       · right
         exact ctl_progress .threadJoin false hc rfl (by simp [hpc, ctlSpin, ha]) (by simp [clientStep, hpc, ha])
   case stopAlive2 cp =>
@@ -322,7 +322,7 @@ theorem stop_no_stuck {s : State} (hB : BaseInv s) (hT : TaskInv s) (hC : CtlInv
     | nil => simp at hne
     | cons w rest =>
       by_cases ha : workerAlive s w = true
-      · exact alive_progress hB hT hC hc (by simp [hpc, cDepth]) ha
+      · exact alive_progress htm hB hT hC hc (by simp [hpc, cDepth]) ha
       · right
         exact ctl_progress .threadIsAlive false hc rfl (by simp [hpc, ctlSpin, ha]) (by simp [clientStep, hpc])
   case clrGet =>
